@@ -24,10 +24,10 @@ THOROUGH_S = 1200
 # component engines saturate their state space much earlier than the node engines
 THOROUGH_BY_PROP = {"C17": 300, "C11": 400, "C03": 600, "C16": 800, "C05": 700, "C09": 700, "C14": 700, "C19": 700, "C06": 900, "C13": 900, "C20": 800}
 PARTS = {
-    "C01": [("csim", 280, 1.0)],
+    "C01": [("csim", 280, 0.8), ("execsim", 28, 0.2)],
     "C02": [("csim", 280, 1.0)],
     "C04": [("csim", 280, 1.0)],
-    "C12": [("csim", 280, 1.0)],
+    "C12": [("csim", 280, 0.75), ("execsim", 42, 0.25)],
     "C15": [("csim", 280, 1.0)],
     "C16": [("csim", 200, 0.7), ("valsetsim", 4000, 0.3)],
     "C07": [("csim", 280, 1.0)],
